@@ -27,6 +27,110 @@ SPEC = {
 }
 
 
+def poll_by_evaluation(pp, Tq, lp):
+    """The five facts about posix::poll decided by evaluating the function under each class of its input -- no timeout; a timeout whose
+    millisecond count fits an i32; one that does not (and then: poll reported something / nothing) -- whichever way the clipped
+    timeout, the overflow flag and the exits are spelled.  Returns {fact: bool}."""
+    I32MAX = 2147483647
+    lpb = lp[0][0]
+    tparam = lambda x: M.noref(x) in (("param", 2, pp.local_name(2)), ("local", 2)) or (M.noref(x)[0] == "phi" and ("param", 2, pp.local_name(2)) in M.noref(x)[1])
+    is_ms = lambda u: u[0] == "call" and u[1] == "std::time::Duration::as_millis"
+    has_ms = lambda x: M.contains(x, is_ms)
+    is_cnt = lambda t_: M.contains(t_, lambda u: u[0] == "call" and u[1] == "posix::check_err") and M.contains(t_, lambda u: u[0] == "call" and u[1] == "libc::poll")
+    now_ = lambda x: M.contains(x, lambda u: u[0] == "call" and u[1] == "std::time::Instant::now")
+    some_pay = lambda x: M.contains(x, lambda u: (u[0] == "downcast" and u[2] == "Some") or (u[0] == "call" and u[1] == "std::option::Option::<T>::unwrap"))
+
+    def fits_value(t, fits):
+        t = M.noref(t)
+        if t[0] == "bin" and t[1] in ("Le", "Lt", "Gt", "Ge"):
+            a, b = t[2], t[3]
+            if const_of(b) is not None and has_ms(a):
+                k, op = const_of(b), t[1]
+            elif const_of(a) is not None and has_ms(b):
+                k, op = const_of(a), {"Le": "Ge", "Lt": "Gt", "Gt": "Lt", "Ge": "Le"}[t[1]]
+            else:
+                return None
+            table = {("Le", I32MAX): fits, ("Gt", I32MAX): not fits, ("Lt", I32MAX + 1): fits, ("Ge", I32MAX + 1): not fits}
+            v = table.get((op, k))
+            return None if v is None else int(v)
+        if t[0] == "call" and "TryFrom<u128> for i32" in t[1] and has_ms(t):
+            return 0 if fits else 1
+        return None
+
+    def elapsed_cmp(t):
+        """value of a clock comparison that means 'the deadline has passed', or None if t is not one"""
+        if not (t and t[0] == "call" and len(t[2]) == 2 and t[1].split("::")[-1] in ("ge", "gt", "le", "lt") and "PartialOrd" in t[1]):
+            return None
+        a, b = t[2]
+        op = t[1].split("::")[-1]
+        now_direct = lambda x: M.noref(M.strip(x))[0] == "call" and M.noref(M.strip(x))[1] == "std::time::Instant::now"
+        if now_direct(a) and some_pay(b) and not now_direct(b):
+            return 1 if op in ("ge", "gt") else 0
+        if now_direct(b) and some_pay(a) and not now_direct(a):
+            return 1 if op in ("le", "lt") else 0
+        return None
+
+    def explore(cls, cnt=None, elapsed=None, start=0):
+        def af(t):
+            if not t:
+                return None
+            n = M.noref(t)
+            if tparam(n):
+                return 0 if cls == "none" else 1
+            if cls in ("fits", "over"):
+                v = fits_value(t, cls == "fits")
+                if v is not None:
+                    return v
+            if cnt is not None and n[0] in ("field", "cast") and is_cnt(n):
+                return cnt
+            if elapsed is not None:
+                ev = elapsed_cmp(n)
+                if ev is not None:
+                    return ev if elapsed else 1 - ev
+                # (a deadline that could not be represented is no deadline: that case is the intended 'wait on' and is not what is asked here)
+                is_dl_val = lambda u: u[0] == "call" and (u[1] == "std::time::Instant::checked_add" or ("Add" in u[1] and "Instant" in u[1])) and now_(u)
+                if is_dl_val(n) or (n[0] == "phi" and any(is_dl_val(M.noref(a_)) for a_ in n[1])):
+                    return 1
+            return None
+        return M.Explore(pp, assume_fn=af, start=start, tries="ok")
+
+    def arg_alts(E_):
+        return [M.noref(a_) for a_ in M.alts(M.Terms(pp, blocks=E_.blocks).operand(lp[0][1]["args"][2]))]
+
+    def cyclic(E_):
+        return any(lpb in c_ for c_ in M.sccs(pp, blocks=E_.blocks, edges=E_.edges))
+
+    def uncast(x):
+        while x[0] == "cast":
+            x = M.noref(x[2])
+        return x
+    out = {}
+    En = explore("none")
+    an = arg_alts(En)
+    out["no-limit"] = lpb in En.blocks and bool(an) and all(const_of(a_) is not None and const_of(a_) < 0 for a_ in an) and not cyclic(En)
+    Ef, Eo = explore("fits"), explore("over")
+    af_, ao_ = arg_alts(Ef), arg_alts(Eo)
+    def exact(a_):
+        x = uncast(a_)
+        if x[0] == "call" and is_ms(x):
+            return True
+        return x[0] == "field" and x[1][0] == "downcast" and x[1][2] == "Ok" and has_ms(x) and "TryFrom<u128> for i32" in M.term_str(x)
+    out["cast"] = lpb in Ef.blocks and lpb in Eo.blocks and bool(af_) and all(exact(a_) for a_ in af_) and bool(ao_) and all(const_of(a_) == I32MAX for a_ in ao_)
+    Eo1 = explore("over", cnt=1)
+    out["rearm"] = not cyclic(En) and not cyclic(Ef) and not cyclic(Eo1) and lpb in Eo1.blocks
+    Eo0 = explore("over", cnt=0)
+    cnt_returned = [bb_ for (bb_, si_, v_, r_) in result_variants(pp, Eo0) if v_ == "Ok" and is_cnt(Tq.operand(r_["ops"][0]))]
+    oks_n = [1 for (bb_, si_, v_, r_) in result_variants(pp, Eo1) if v_ == "Ok" and is_cnt(Tq.operand(r_["ops"][0]))]
+    out["count"] = not cnt_returned and bool(oks_n) and lpb in Eo0.blocks
+    # the re-arm cycle: with the clock saying 'elapsed' it ends (Ok), with 'not yet' it goes round with timeout := deadline - now
+    Eo0e = explore("over", cnt=0, elapsed=True)
+    Eo0n = explore("over", cnt=0, elapsed=False)
+    rearm_sub = any(s_["k"] == "assign" and s_["p"]["l"] == 2 and not s_["p"]["proj"] and M.contains(Tq.rvalue(s_["r"]), lambda u: u[0] == "call" and "Sub" in u[1] and now_(u) and some_pay(u))
+                    for bb_ in Eo0n.blocks for s_ in pp.blocks[bb_]["stmts"])
+    out["loop"] = not cyclic(Eo0e) and cyclic(Eo0n) and rearm_sub and bool([1 for bb_, t_ in pp.calls() if elapsed_cmp(("call", M.callee_str(t_["f"]), tuple(Tq.operand(a_) for a_ in t_["args"]), bb_)) is not None])
+    return out
+
+
 def run(ctx):
     prog = ctx.prog
     E = Engine(prog)
@@ -256,10 +360,17 @@ def run(ctx):
                     kinds.setdefault("clipped", []).append(dominated_by_edges(pf, bb_, le_f) or dominated_by_edges(pf, bb_, try_err))
                 else:
                     unknown.append("(%s, %s)@%s" % (M.term_str(v0)[:50], M.term_str(v1), pf.loc(bb_)))
-        ctx.ob("R04.4", "no-limit=>infinite-timeout", kinds.get("no-limit") == [True], pp.loc(lp[0][0]),
+        try:
+            pev = poll_by_evaluation(pp, Tq, lp)
+        except (IndexError, KeyError, TypeError, AttributeError, ValueError):
+            pev = {}
+        # the five evaluated facts are one statement about posix::poll; they stand in for the shape-based rules only together
+        if not (pev and all(pev.values())):
+            pev = {}
+        ctx.ob("R04.4", "no-limit=>infinite-timeout", kinds.get("no-limit") == [True] or pev.get("no-limit", False), pp.loc(lp[0][0]),
                "without a timeout libc::poll must get a negative constant (block until an event) with overflow = false, and only then (pairs found: %s)" % kinds.get("no-limit"))
         okc = kinds.get("exact") == [True] and kinds.get("clipped") == [True] and not unknown
-        ctx.ob("R04.4", "ms-cast-guarded", bool(okc), pp.loc(0),
+        ctx.ob("R04.4", "ms-cast-guarded", bool(okc) or pev.get("cast", False), pp.loc(0),
                "the millisecond count reaches libc::poll unchanged only when it fits an i32 (`ms <= i32::MAX` / i32::try_from(ms) is Ok); otherwise i32::MAX with overflow = true "
                "(exact: %s, clipped: %s, unclassified pairs: %s)" % (kinds.get("exact"), kinds.get("clipped"), unknown))
         # what libc::poll receives is the first component of those pairs
@@ -295,7 +406,7 @@ def run(ctx):
         ctx.ob("R04.4", "poll-deadline-addition-cannot-overflow", safe, pp.loc(0),
                "posix::poll computes its own deadline from the remaining time on a later clock reading: `Instant::now() + timeout` there can still overflow "
                "for a limit whose deadline was only just representable; it must be checked_add (None = wait on)")
-        ctx.ob("R04.4", "rearm-loop-covered-by-deadline", okl, pp.loc(0), "the > i32::MAX ms re-arm loop re-checks the original deadline every iteration and re-arms with deadline - now")
+        ctx.ob("R04.4", "rearm-loop-covered-by-deadline", okl or pev.get("loop", False), pp.loc(0), "the > i32::MAX ms re-arm loop re-checks the original deadline every iteration and re-arms with deadline - now")
         # what leaves the loop and what re-arms: a positive count is returned at once; a zero count is returned only when the whole requested
         # timeout was armed (no overflow) or the deadline has passed; the loop re-arms only when nothing was ready *and* the timeout was clipped
         is_cnt = lambda t_: M.contains(t_, lambda u: u[0] == "call" and u[1] == "posix::check_err") and M.contains(t_, lambda u: u[0] == "call" and u[1] == "libc::poll")
@@ -322,12 +433,12 @@ def run(ctx):
             if v_ == "Ok" and const_of(Tq.operand(r_["ops"][0])) is None:
                 cnt_rets.append(bb_)
         okr = bool(cnt_rets) and bool(nzc) and bool(ov_f) and all(dominated_by_edges(pp, b_, nzc + ov_f) for b_ in cnt_rets)
-        ctx.ob("R04.4", "count-returned-iff-ready-or-timeout-fully-armed", okr, pp.loc(cnt_rets[0] if cnt_rets else 0),
+        ctx.ob("R04.4", "count-returned-iff-ready-or-timeout-fully-armed", okr or (pev.get("count", False) and pev.get("rearm", False)), pp.loc(cnt_rets[0] if cnt_rets else 0),
                "Ok(cnt) is returned only when cnt != 0, or when the armed timeout was the whole remaining time (overflow == false): returning 0 after a clipped "
                "timeout reports 'nothing ready' long before the limit")
         rearm = [bb_ for (bb_, si_, r_) in pp.defs().get(2, []) if r_["k"] not in ("partial",) and bb_ in (loops[0] if len(loops) == 1 else set())]
         oka = bool(rearm) and bool(zc) and bool(ov_t) and all(dominated_by_edges(pp, b_, zc) and dominated_by_edges(pp, b_, ov_t) for b_ in rearm)
-        ctx.ob("R04.4", "rearm-only-if-nothing-ready-and-clipped", oka, pp.loc(rearm[0] if rearm else 0),
+        ctx.ob("R04.4", "rearm-only-if-nothing-ready-and-clipped", oka or pev.get("rearm", False), pp.loc(rearm[0] if rearm else 0),
                "the loop goes round again (timeout := deadline - now) only when poll reported nothing *and* the timeout had been clipped to i32::MAX ms; "
                "re-arming with a ready descriptor spins forever without ever returning the count")
     # ---- R04.5 partial results travel with the error ------------------------------------------------------------------
